@@ -103,3 +103,12 @@ DET.update({
  "C18-e": (False, "C18 quick: check=created_for_invalid_path path=leaf_LaZone role=client", "FSAuth.tla leaf classes LaMap / LaAlt / LaZone / LaOdd (spellings of the live peer address: v4-mapped, expanded, zone suffix with junk classes, odd numeric forms); Bug ZoneSuffixAccepted"),
  "C20-e": (False, "C20 quick: invariant=ReturnedPresentedFreshId what=returned_badGreeting (standard) / returned_without_matching_hello (proxy, nested)", "CCBDial.tla arrival kind badGreeting (right id inside a malformed opening message: wrong command int, command missing, extra leading item, ad before command) in all three modes; every script with <= 2 environment steps always replayed; Bugs NoCommandCheck / ProxyNoCommandCheck"),
 })
+
+# round 4 (letter f, eight properties)
+DET.update({
+ "C04-f": (True,  "C04 quick: inv=EncOnImpliesSameTranscripts class=digest-coverage (frame headers of non-empty cleartext frames no longer hashed) on every shape", ""),
+ "C05-f": (True,  "C05 quick: action=Handler lacks=authz via=fresh (first command of a fresh session not checked against the Authorizer)", ""),
+ "C06-f": (True,  "C06 quick: inv=DeadStaysDead placement=fallback (an invalidated session survives in the server's own cache)", ""),
+ "C11-f": (True,  "C11 quick: dev=iat_near/exp_near ... got=server=fail (the independent AKEP2 reference peer's proofs, which include the nonces, are refused)", ""),
+ "C13-f": (True,  "C13 quick: ep=ParseSinful kind=spin class='qm amp' (empty query pair)", ""),
+})
